@@ -1146,4 +1146,27 @@ example : (match addAll cfg0 {} [evCreate, evA] with
     | .ok s => (match addRolledBack cfg0 s evB with | .ok t => t.cache.length == 1 && s.cache.length == 0 | _ => false)
     | _ => false) = true := by decide
 
+/-- **`Conflicted()` is right about a DID immediately after every committed Add of it, whatever was rolled back before**:
+    after ANY history of committed / rolled-back deliveries, the key a committed Add touches holds exactly the entry of
+    the run that only saw the committed deliveries (the entry `iterators_agree_with_counters` / `restart_changes_nothing`
+    speak about) — the re-delivery the DAG performs after a failed Add therefore always ends the staleness of that DID -/
+theorem conflicted_entry_is_right_after_every_committed_add (cfg : Cfg) (l : List (Event × Bool)) (e : Event) (t' t : Store) (k : String)
+    (h1 : addAllRb cfg {} l = .ok t') (hk : touched cfg t' e = some k)
+    (h2 : addAllRb cfg {} (l ++ [(e, false)]) = .ok t) :
+    ∃ u, addAll cfg {} (committed (l ++ [(e, false)])) = .ok u ∧ alGet t.cache k = alGet u.cache k := by
+  have ha : add cfg t' e = .ok t := by
+    rw [addAllRb_snoc cfg l {} t' _ h1] at h2
+    simp only [addAllRb, Bool.false_eq_true, if_false] at h2
+    split at h2
+    · rename_i s1 hs1; cases h2; exact hs1
+    · cases h2
+    · cases h2
+  obtain ⟨u, hu, _, _, _, hc⟩ := rb_run cfg (l ++ [(e, false)]) {} {} [] t rfl rfl rfl (fun _ _ => rfl) h2
+  exact ⟨u, hu, hc k (committed_cleans cfg l {} t' t [] e k h1 ha hk)⟩
+
+example : (match addAllRb cfg0 {} [(evCreate, false), (evA, false), (evB, true)] with
+    | .ok t' => touched cfg0 t' evB == some "did:nuts:x" &&
+        (match addAllRb cfg0 {} ([(evCreate, false), (evA, false), (evB, true)] ++ [(evB, false)]) with | .ok _ => true | _ => false)
+    | _ => false) = true := by decide
+
 end Nuts.C10.Props
